@@ -29,6 +29,8 @@ def _unit_pow(node, base_name):
     if not (isinstance(node, ast.BinOp) and isinstance(node.op, ast.Pow)):
         raise T.TranslateError(f"not a power: {ast.dump(node)[:100]}")
     b = node.left
+    if base_name is None and isinstance(b, ast.BinOp) and isinstance(b.left, ast.Name):
+        base_name = b.left.id            # any local name, used consistently
     ok = (isinstance(b, ast.BinOp) and isinstance(b.op, ast.Div) and isinstance(b.left, ast.Name) and b.left.id == base_name
           and isinstance(b.right, ast.Call) and isinstance(b.right.func, ast.Name) and b.right.func.id == "abs"
           and len(b.right.args) == 1 and isinstance(b.right.args[0], ast.Name) and b.right.args[0].id == base_name)
@@ -44,7 +46,7 @@ def face_exponent():
             and isinstance(s.targets[0], ast.Subscript) and _is_self_attr(s.targets[0].value, "var")]
     if len(hits) != 1:
         raise T.TranslateError(f"expected exactly one write `self.var[T] = ...`, found {len(hits)}")
-    e = _unit_pow(hits[0].value, "c")
+    e = _unit_pow(hits[0].value, None)
     if isinstance(e, ast.Constant) and isinstance(e.value, int) and not isinstance(e.value, bool) and e.value >= 0:
         return str(e.value), f"constant {e.value}"
     if _is_self_attr(e, "order") or (isinstance(e, ast.Name) and e.id == "order"):
@@ -53,8 +55,8 @@ def face_exponent():
 
 
 def face_flag_constants():
-    tree, _ = T.load(FACES)
-    fn = T.find_def(tree, "_BaseFrameField2DFaces.flag_singularities")
+    from .c18stranslate import load_fn          # normalised tree: `x = x + e` -> `x += e`, `a > b` -> `b < a`, annotations dropped
+    fn = load_fn(FACES, "_BaseFrameField2DFaces.flag_singularities")
     zt = [s for s in ast.walk(fn) if isinstance(s, ast.Assign) and isinstance(s.targets[0], ast.Name) and s.targets[0].id == "ZERO_THRESHOLD"]
     if len(zt) != 1:
         raise T.TranslateError("ZERO_THRESHOLD assignment not found")
@@ -120,15 +122,17 @@ def is_self_division(st):
 def base_threshold():
     tree, _ = T.load(BASE)
     fn = T.find_def(tree, "FrameField.normalize")
+    from .c18stranslate import load_fn
+    fn = load_fn(BASE, "FrameField.normalize")          # normalised: `abs(x) > T` -> `T < abs(x)`
     ifs = [s for s in ast.walk(fn) if isinstance(s, ast.If) and isinstance(s.test, ast.Compare) and len(s.test.ops) == 1
-           and isinstance(s.test.ops[0], ast.Gt) and isinstance(s.test.left, ast.Call)
-           and isinstance(s.test.left.func, ast.Name) and s.test.left.func.id == "abs"]
+           and isinstance(s.test.ops[0], ast.Lt) and isinstance(s.test.comparators[0], ast.Call)
+           and isinstance(s.test.comparators[0].func, ast.Name) and s.test.comparators[0].func.id == "abs"]
     if len(ifs) != 1:
         raise T.TranslateError("`if abs(self.var[i]) > THR` not found exactly once in FrameField.normalize")
     body = ifs[0].body
     if not (len(body) == 1 and is_self_division(body[0])):
         raise T.TranslateError("body of the guard is not `self.var[i] /= abs(self.var[i])` (or `self.var[i] = self.var[i] / abs(self.var[i])`)")
-    return _ratlit(ifs[0].test.comparators[0])
+    return _ratlit(ifs[0].test.left)
 
 
 def vertex_constants():
